@@ -58,6 +58,8 @@ def run(ctx) -> None:
         witnesses(ctx, _mkw(ctx.p), "C07.W.canonical-witness-is-found", tags=() if ctx.tier != "thorough" or "C07" != "C07" else ())
     from ._matchrules import observer_chain_rules
     observer_chain_rules(ctx, "C07.H.empty-pseudo-instruction-never-reaches-the-stream", "C07.H.every-other-instruction-reaches-the-stream")
+    from ._matchrules import wired_chain_rules
+    wired_chain_rules(ctx, "C07.H.empty-pseudo-instruction-never-reaches-the-stream", "C07.H.every-other-instruction-reaches-the-stream")
     # P3 shipped macro file
     f = ctx.p.root / "tests" / "macros" / "jasm_macros.yaml"
     if not f.exists():
